@@ -10,7 +10,7 @@ RULE = ("paths mixing move/line/quad/cubic/close with arbitrary (non-monotonic, 
         "quarter-grid and general, both winding rules, under identity, exact-family and general invertible transforms, filled "
         "and used as clip paths: all pixels are compared with the model (integer curve edges; lyon's cubic-to-quadratic "
         "output supplied by the harness); the statement is evaluated in f64 on white-on-transparent fills: the winding number "
-        "of a 128-segment-per-curve flattening of the transformed path decides inside/outside, pixels farther than 1 px "
+        "of a 128-segment-per-curve flattening of the transformed path decides inside/outside (shapes up to 64 px, and large user-space shapes under down-scaling transforms included), pixels farther than 1 px "
         "(+ half diagonal) from the outline must be 255 inside and 0 outside; non-trivial = path with a curve that painted "
         "something")
 
@@ -74,17 +74,40 @@ def outline_dist(subs, p):
     return d
 
 
+def scale_ops(ops, k):
+    out = []
+    for o in ops:
+        t = o.split()
+        if t[0] in ("M", "L", "Q", "C"):
+            nn = {"M": 2, "L": 2, "Q": 4, "C": 6}[t[0]]
+            vals = [FB(bits_f32(int(v)) * k) for v in t[1:1 + nn]]
+            out.append(" ".join([t[0]] + [str(v) for v in vals] + t[1 + nn:]))
+        else:
+            out.append(o)
+    return out
+
+
 def pixel_oracle(ctx):
     rng = ctx.rng
     n = 200 if ctx.tier == "quick" else 3000
-    W = H = 20
     scenes, meta = [], []
     for i in range(n):
+        W = H = 20
+        kind = i % 10
+        if kind == 8:
+            W = H = 64          # large shapes: too few subdivisions of a curve cut its corner by pixels, not fractions
         ops = scene.curvy_path(rng, W, H)
         rule = rng.randrange(2)
         xf = scene.rand_xf(rng, general=0.6)
         if xf[0] * xf[3] - xf[1] * xf[2] == 0:
             xf = scene.IDENT
+        if kind == 9:
+            # strongly down-scaling transform with correspondingly large user-space coordinates: every tolerance the
+            # code applies to curves must be a device-space tolerance
+            k = rng.choice([0.01, 0.02, 0.05, 0.004])
+            ops = scale_ops(ops, 1.0 / k)
+            flip = rng.random() < 0.3
+            xf = (k, 0.0, 0.0, -k if flip else k, rng.choice([0.0, 0.25, 3.0]), float(H) if flip else rng.choice([0.0, 0.5]))
         ptoks = scene.path_tokens(ops, rule)
         if i % 3 == 2:
             body = "clippath %s ; fillrect %d %d %d %d solid ffffffff 1 %d 1" % (ptoks, FB(-100.0), FB(-100.0), FB(400.0), FB(400.0), FB(1.0))
@@ -114,9 +137,10 @@ def pixel_oracle(ctx):
         subs = fine_polygons(tops, xf)
         if not subs or any(not geom.finite(*p) or abs(p[0]) > 3000 or abs(p[1]) > 3000 for s_ in subs for p in s_):
             continue
+        W, H = int(sline.split()[2]), int(sline.split()[3])
         for y in range(H):
             for x in range(W):
-                if (x + 3 * y + checked) % 2:
+                if (x + 3 * y + checked) % (2 if W <= 20 else 5):
                     continue
                 c = (x + 0.5, y + 0.5)
                 d = outline_dist(subs, c)
